@@ -1,21 +1,40 @@
 PROP = {
-    "kani_groups": ["hk_emit_min", "hk_emit_std"],
+    "kani_groups": ["hk_emit_min", "hk_emit_std", "hk_tlctxt"],
     "smt": [],
     "technique": "bounded model checking (Kani/CBMC) of emit::Frame / EnterGuard / FrameFuture and the Ctxt default methods over symbolic well-nested programs",
     "functions": [
         "impl Ctxt for {&C, Option<C>, Box<C>, Arc<C>, dyn ErasedCtxt, dyn ErasedCtxt + Send + Sync}: every method forwards to the same method of the wrapped context (c03c04_q_wrapper_*)",
         "emit::frame::{Frame::{current, push, root, disabled, with, enter, call, in_fn, in_future, from_parts, drop}, EnterGuard::drop, FrameFuture::poll}",
         "emit_core::ctxt::{Ctxt::open_push (default), open_disabled (default), impl Ctxt for &C, impl Ctxt for Option<C>, internal::Slot}",
+        "hk_tlctxt: emit::platform::thread_local_ctxt::{ThreadLocalCtxt::{new, default, shared, open_root, open_push, enter, exit, with_current}, ThreadLocalCtxtFrame::{for_each, get, clone}, "
+        "ThreadLocalValue::{from_value, to_value}, current, swap, ctxt_id (real Mutex)} - the REAL thread-local context; impl Ctxt for Arc<ThreadLocalCtxt> and for dyn ErasedCtxt over it "
+        "(ErasedFrame / ErasedCurrent); impl Props for Arc<P> / HashMap<K, V> (real text, map type substituted); std::sync::Arc::{new, clone, make_mut, drop} and mem::swap (real)",
     ],
     "bounds": "quick: a chain of 2 nested frames and a sequence of 2 sibling frames; thorough: depth 2 with <= 2 siblings per level and a chain of 3; frame kind in {push, root, disabled, current}, "
               "entry API in {enter guard (+ optional re-entry), call, with, in_fn}; <= 2 symbolic i32 properties per frame with distinct keys; "
-              "two frame-wrapped futures with <= 2 yields each polled in any order (6 steps); a second context instance observed throughout",
-    "outside": "the real ThreadLocalCtxt (hash maps in thread-local storage: does not fit CBMC, DESIGN.md section 3) and with it real threads and "
+              "two frame-wrapped futures with <= 2 yields each polled in any order (6 steps); a second context instance observed throughout; hk_tlctxt (real ThreadLocalCtxt, one-step): ONE frame (push or root, <= 2 own i64 properties) from a pre-state of context A on thread 0 that is 'never touched' (no entry in ACTIVE), 'observed only' (entry without a map) or 'inside an entered root frame with <= 2 properties'; keys from the pool {a, bb, ccc}; another context instance B with its own entry on thread 0, the same context A with its own entry (or untouched) on harness thread 1, ThreadLocalCtxt::shared() observed; SHAPES (which keys, how many, pre-state kind, observe-before-enter, iteration order of the map: forwards / reverse) are concrete per harness (8 quick + 3 thorough step shapes, 2 re-enter, 2 cross-thread, 2+2 wrapper shapes), all VALUES symbolic; context ids as handed out by ThreadLocalCtxt::new() (1, 2) and 0",
+    "outside": "UPDATE hk_tlctxt: the real ThreadLocalCtxt IS now decided one frame step at a time (see bounds); still outside: compositions of more than one frame step on it (the generic frame discipline "
+               "over env::ArrCtxt composes with the step), more than 4 distinct keys per frame / 4 context ids per thread (capacity of the map stand-in: exceeding it fails the harness), symbolic key sets and "
+               "symbolic iteration order (concrete shapes only), real OS threads and TLS teardown, hashing itself (std HashMap trusted as a finite map); "
+               "NOT decided on the real context: the pre-states in which the entering thread has NO entry yet for the context id (first touch by enter / "
+               "open_push / open_root), a push onto an observed-but-empty slot, re-entry of a root frame on an untouched thread and the push step through "
+               "&dyn ErasedCtxt - harnesses c03_x_tl_{root_first_touch, push_on_untouched, push_on_observed, cross_thread_push_to_untouched, "
+               "reenter_root_untouched, via_erased_push} find counterexamples on mutants within minutes but do not finish on the unchanged tree "
+               "(3 of them alone, 4 solvers free: 12.4 GB each after 21 min) and are therefore not registered. Previously: "
+               "the real ThreadLocalCtxt (hash maps in thread-local storage: does not fit CBMC, DESIGN.md section 3) and with it real threads and "
                "TLS teardown; the unwinder itself (EnterGuard::drop / Frame::call / FrameFuture::poll are executed on the normal path with std::thread::panicking() symbolic "
                "in the std group); exits out of stack order (excluded by the property)",
     "stubs": ["std::thread::panicking -> symbolic bool (c03c04_q_exit_while_panicking)", "Ctxt = array-backed harness implementation of the public trait (env::ArrCtxt): enter/exit swap the frame with the current slot, "
-              "open_root collects first-wins; open_push/open_disabled are the trait's real default methods"],
-    "assumptions": ["frames are exited in stack order", "keys within a frame are distinct"],
+              "open_root collects first-wins; open_push/open_disabled are the trait's real default methods",
+              "hk_tlctxt / tlctxt:hashmap-core + tlctxt:std-facade: std::collections::HashMap in core/src/props.rs (impl Props for HashMap) and src/platform/thread_local_ctxt.rs -> emit_core::verif_shim::HashMap, a 4-slot "
+              "association list with std's API subset (new/insert/get/get_mut/remove/entry API/iteration/len/clone): std's map is TRUSTED as a finite map (one value per key, insert replaces, lookup by Eq); hashing is not "
+              "executed (sound while Hash agrees with Eq: usize, Str); iteration order is chosen by the harness (start slot + direction), concrete per harness; a 5th distinct key panics (reported, never silently wrong). "
+              "The repo's own thread_local_ctxt tests pass natively against the substituted tree (single-threaded)",
+              "hk_tlctxt / tlctxt:tls-active: thread_local! ACTIVE -> two per-'thread' lazily allocated heap cells selected by the harness-controlled id VERIF_THREAD (exact model of thread-locality at operation granularity; "
+              "TLS teardown outside)",
+              "hk_tlctxt / tlctxt:verif: appended read-only probes inside thread_local_ctxt.rs (ctxt_id_of, frame_len, ...; no logic)",
+              "hk_tlctxt: Kani -Z restrict-vtable, CBMC --max-field-sensitivity-array-size 1024 (symex precision only), recursion cap 0 on value-bag's recursive drop glue (unwinding assertions stay on)"],
+    "assumptions": ["frames are exited in stack order", "keys within a frame are distinct", "hk_tlctxt: none beyond the shapes (values unconstrained)"],
     "level_text": "Bounded model checking of the generic frame discipline (the code every Ctxt shares); PARTIAL: the thread-local implementation itself is outside.",
     "timeout": {"quick": 700, "thorough": 3600},
 }
